@@ -118,6 +118,25 @@ def pricing_job(j):
             item = AsmBytecode(-1, -1, -1, "PUSH", v)
             if item.bytes_required != cost.bytes_of("PUSH", v, flag) or item.gas_spent != 3:
                 out["bad"].append({"key": "pricing:PUSH %s" % v, "what": "PUSH %s mispriced" % v})
+        # a pseudo-push is never a zero push, whatever its operand is spelled like (the plain-text reader and ids2asm
+        # normalise operands, so "0" does occur): name, rendering and price stay those of the pseudo-push
+        for name in ("PUSH [tag]", "PUSH data", "PUSH [$]", "PUSH #[$]", "PUSHIMMUTABLE", "PUSHLIB", "PUSHSIZE", "PUSHDEPLOYADDRESS"):
+            for v in ("0", "00", "1", "0" * 64, None):
+                if (v is None) != (name in ("PUSHSIZE", "PUSHDEPLOYADDRESS")):
+                    continue
+                out["cases"] += 1
+                item = AsmBytecode(-1, -1, -1, name, v)
+                label = "%s %s" % (name, v)
+                try:
+                    got = (item.bytes_required, item.gas_spent, item.to_plain().split()[0] == name.split()[0] and "PUSH0" not in item.to_plain().split(),
+                           item.to_json()["name"])
+                except Exception as e:
+                    out["bad"].append({"key": "pricing:%s:raises" % label, "what": "%s: pricing/rendering raises %r" % (label, e)})
+                    continue
+                want = (cost.bytes_of(name, v, flag), 3, True, name)
+                if got != want:
+                    out["bad"].append({"key": "pricing:%s:push0=%s" % (label, flag),
+                                       "what": "%s: (bytes, gas, rendered as itself, JSON name) = %s, expected %s (push0 %s)" % (label, got, want, flag)})
     return out
 
 
